@@ -102,7 +102,14 @@ pub fn record(args: &Args) {
             let bs = Arc::new(RecBlockstore { inner: InMemoryBlockstore::new(), log: log.clone() });
             // ---- random store: ranges with gaps, pruned holes, sampled marks, metadata + blocks
             let mut stored: BTreeSet<u64> = BTreeSet::new();
-            let mut h = rng.gen_range(1..6);
+            // the lowest synced height: near 1, anywhere, or around the window edges (an edge of the
+            // synced ranges inside the sampling window must survive)
+            let mut h = match rng.gen_range(0..4) {
+                0 => rng.gen_range(1..6),
+                1 => rng.gen_range(1..n.saturating_sub(3).max(2)),
+                2 => rng.gen_range(n.saturating_sub(ks + 3).max(1)..=n.saturating_sub(ks.saturating_sub(3)).max(1).min(n)),
+                _ => rng.gen_range(n.saturating_sub(kp + 3).max(1)..=n.saturating_sub(kp.saturating_sub(3)).max(1).min(n)),
+            };
             while h <= n {
                 let len = rng.gen_range(1..=10).min(n - h + 1);
                 store.inner.insert(chain[(h - 1) as usize..(h - 1 + len) as usize].to_vec()).await.unwrap();
